@@ -820,8 +820,123 @@ func trimBytes(b []byte) []byte {
 	return b
 }
 
+// ---- bounded stand-ins (DESIGN.md §7 C07): functions outside the verifier's reach are exercised
+// up to a stated bound; always labelled "bounded", never counted in `discharged`.
+
+const parseStandinTest = `package signature
+
+import (
+	"fmt"
+	"os"
+	"strings"
+	"testing"
+	"time"
+)
+
+// TestVerifParseStandin: signature.Parse (goparsec combinators) is not under contract; bounded check.
+func TestVerifParseStandin(t *testing.T) {
+	alphabet := "bcCwWiIlLfdsmovrX[](){}<>,a"
+	maxLen := %d
+	maxDepth := %d
+	count := 0
+	var rec func(prefix string)
+	rec = func(prefix string) {
+		func() {
+			defer func() {
+				if p := recover(); p != nil {
+					fmt.Fprintf(os.Stdout, "VERIF-STANDIN-FAIL panic on %%q: %%v\n", prefix, p)
+				}
+			}()
+			Parse(prefix)
+			count++
+		}()
+		if len(prefix) >= maxLen {
+			return
+		}
+		for i := 0; i < len(alphabet); i++ {
+			rec(prefix + alphabet[i:i+1])
+		}
+	}
+	rec("")
+	// nesting sweep: linear-time budget per depth for every bracket kind
+	kinds := [][2]string{{"(", ")"}, {"[", "]"}, {"{s", "}"}, {"((", "))"}}
+	for _, k := range kinds {
+		for d := 1; d <= maxDepth; d++ {
+			sig := strings.Repeat(k[0], d) + "i" + strings.Repeat(k[1], d)
+			t0 := time.Now()
+			func() {
+				defer func() {
+					if p := recover(); p != nil {
+						fmt.Fprintf(os.Stdout, "VERIF-STANDIN-FAIL panic on %%q: %%v\n", sig, p)
+					}
+				}()
+				Parse(sig)
+			}()
+			el := time.Since(t0)
+			count++
+			if el > 200*time.Millisecond+time.Duration(d)*5*time.Millisecond {
+				fmt.Fprintf(os.Stdout, "VERIF-STANDIN-FAIL nesting depth %%d of %%q took %%v (budget 200ms+5ms*depth): super-linear\n", d, k[0], el)
+				break
+			}
+		}
+	}
+	fmt.Fprintf(os.Stdout, "VERIF-STANDIN-OK cases=%%d\n", count)
+}
+`
+
 func runBoundedStandins(prop, tier, repo, verif string, seed int, violate func(string, bool), writeReplay func(string, map[string]interface{}) string) interface{} {
-	return nil
+	if prop != "C07" {
+		return nil
+	}
+	maxLen, maxDepth := 3, 16
+	if tier == "thorough" {
+		maxLen, maxDepth = 4, 22
+	}
+	src := fmt.Sprintf(parseStandinTest, maxLen, maxDepth)
+	dir := filepath.Join(repo, "meta", "signature")
+	tmp, err := os.MkdirTemp("", "verif-standin")
+	if err != nil {
+		return map[string]interface{}{"error": err.Error()}
+	}
+	defer os.RemoveAll(tmp)
+	tf := filepath.Join(tmp, "zz_verif_standin_test.go")
+	os.WriteFile(tf, []byte(src), 0o644)
+	ov, _ := json.Marshal(map[string]interface{}{"Replace": map[string]string{filepath.Join(dir, "zz_verif_standin_test.go"): tf}})
+	ovf := filepath.Join(tmp, "overlay.json")
+	os.WriteFile(ovf, ov, 0o644)
+	ctx, cancel := context.WithTimeout(context.Background(), 300*time.Second)
+	defer cancel()
+	cmd := exec.CommandContext(ctx, "go", "test", "-overlay", ovf, "-v", "-vet=off", "-count=1", "-timeout", "240s", "-run", "^TestVerifParseStandin$", ".")
+	cmd.Dir = dir
+	cmd.Env = append(os.Environ(), "GOFLAGS=-mod=mod", "GOPROXY=off", "GOSUMDB=off", "GOTOOLCHAIN=local")
+	t0 := time.Now()
+	outb, _ := cmd.CombinedOutput()
+	out := string(outb)
+	res := map[string]interface{}{
+		"label":    "bounded",
+		"function": "meta/signature.Parse (goparsec combinator tree, outside the verifier's reach)",
+		"bound":    fmt.Sprintf("every string of length <= %d over a 27-character signature alphabet must return without panic; for each bracket kind, nesting depth 1..%d must parse within 200ms + 5ms*depth", maxLen, maxDepth),
+		"seconds":  time.Since(t0).Seconds(),
+	}
+	var fails []string
+	for _, l := range strings.Split(out, "\n") {
+		if strings.HasPrefix(l, "VERIF-STANDIN-FAIL") {
+			fails = append(fails, strings.TrimPrefix(l, "VERIF-STANDIN-FAIL "))
+		}
+		if strings.HasPrefix(l, "VERIF-STANDIN-OK") {
+			res["result"] = strings.TrimPrefix(l, "VERIF-STANDIN-OK ")
+		}
+	}
+	if _, ok := res["result"]; !ok && len(fails) == 0 {
+		fails = append(fails, "stand-in test did not complete: "+trunc(out, 400))
+	}
+	if len(fails) > 0 {
+		res["failures"] = fails
+		p := writeReplay("bounded_signature.Parse", map[string]interface{}{"status": "bounded-stand-in-failed", "obligation": "bounded/meta/signature.Parse",
+			"detail": fails, "test": src, "inputs": fails[0]})
+		violate(p, false)
+	}
+	return res
 }
 
 var _ = json.Marshal
